@@ -10,7 +10,7 @@ open Nstd.Server.C13 (Outcome SendRes sendOS)
 /-- what API calls and callback scripts may do to pc / gone / interrupt state -/
 def Rel (s s' : St) : Prop :=
   s'.pc = s.pc ∧ (∀ i, s.gone i = true → s'.gone i = true) ∧
-  ((s.interrupted = true → 0 < s.eventfd) → (s'.interrupted = true → 0 < s'.eventfd)) ∧
+  ((s.interrupted = true → 0 < s.eventfd + s.pendingEfd) → (s'.interrupted = true → 0 < s'.eventfd + s'.pendingEfd)) ∧
   (s.interrupted = true → s'.interrupted = true)
 
 theorem Rel.refl (s : St) : Rel s s := ⟨rfl, fun _ h => h, fun h => h, fun h => h⟩
@@ -77,7 +77,7 @@ theorem interrupt_rel (s : St) : Rel s (interrupt s) := by
   unfold interrupt
   split
   · exact Rel.refl s
-  · exact ⟨rfl, fun _ h => h, fun _ _ => Nat.succ_pos _, fun _ => rfl⟩
+  · exact ⟨rfl, fun _ h => h, fun _ _ => by show 0 < s.eventfd + 1 + s.pendingEfd; omega, fun _ => rfl⟩
 
 theorem suspend_rel (s : St) (i : Id) : Rel s (suspend s i) := by
   unfold suspend
@@ -166,6 +166,8 @@ inductive Move
   | mkEst (i : Id)
   | script (i : Id) (k : Nat) (acts : List Act)
   | enter                         -- Server::run() is called
+  | intrBegin                     -- another thread: interrupt() takes the mutex, tests and sets the flag
+  | intrEnd                       -- … and then writes the event descriptor
   | step (inp : PollIn) (o : Outcome)
 
 def move (s : St) : Move → St
@@ -176,6 +178,8 @@ def move (s : St) : Move → St
   | .mkEst i => mkEst s i
   | .script i k acts => setScript s i k acts
   | .enter => enterRun s
+  | .intrBegin => if s.interrupted then s else { s with interrupted := true, pendingEfd := s.pendingEfd + 1 }
+  | .intrEnd => if s.pendingEfd = 0 then s else { s with pendingEfd := s.pendingEfd - 1, eventfd := s.eventfd + 1 }
   | .step inp o => (step s inp o).1
 
 /-- the callbacks a move performs -/
@@ -214,6 +218,16 @@ theorem inv_move (s : St) (m : Move) (h : Inv s) : Inv (move s m) := by
     · exact ⟨ht.same ⟨rfl, rfl, fun _ h => h⟩, ⟨hu.auto1, hu.auto2, hu.liveUsed, hu.gone, hu.disj⟩,
         ⟨hs.selSub, hs.kind, hs.hasCb, hs.closing, hs.ncLive, hs.noFault⟩⟩
     · exact ⟨ht, hu, hs⟩
+  case intrBegin =>
+    split
+    · exact ⟨ht, hu, hs⟩
+    · exact ⟨ht.same ⟨rfl, rfl, fun _ h => h⟩, ⟨hu.auto1, hu.auto2, hu.liveUsed, hu.gone, hu.disj⟩,
+        ⟨hs.selSub, hs.kind, hs.hasCb, hs.closing, hs.ncLive, hs.noFault⟩⟩
+  case intrEnd =>
+    split
+    · exact ⟨ht, hu, hs⟩
+    · exact ⟨ht.same ⟨rfl, rfl, fun _ h => h⟩, ⟨hu.auto1, hu.auto2, hu.liveUsed, hu.gone, hu.disj⟩,
+        ⟨hs.selSub, hs.kind, hs.hasCb, hs.closing, hs.ncLive, hs.noFault⟩⟩
   case step inp o => exact ⟨step_invT s inp o ht, step_invU s inp o hu, step_invS s inp o ht hs⟩
 
 theorem inv_runMoves (s : St) (ms : List Move) (h : Inv s) : Inv (runMoves s ms) := by
